@@ -12,6 +12,7 @@ def _(self, node, expected_type):
     result_sort('RecResult')
     ensures(cardmany(result[0])
             or forall_in(result[0], lambda r: wf_ty(r)))
+    ensures(implies(not card1(result[0]), leafcite(result[1])))
     ensures(forall_in(result[0], lambda r: shape_ok(node, r)))
     # built-ins are recognised by the exact YAML tag, on scalar nodes only
     ensures(result[0] == (tyset_of(expected_type)
@@ -31,6 +32,7 @@ def _(self, node, expected_type):
     result_sort('RecResult')
     ensures(cardmany(result[0])
             or forall_in(result[0], lambda r: wf_ty(r)))
+    ensures(implies(not card1(result[0]), leafcite(result[1])))
     ensures(forall_in(result[0], lambda r: shape_ok(node, r)))
     ensures(result[0] == (tyset_of(T_PATH)
                           if node.kind == SCALAR and node.tag == STR_TAG
@@ -47,6 +49,7 @@ def _(self, node, expected_type):
     ensures(forall_in(result[0], lambda r: concrete_ok(r)))
     ensures(cardmany(result[0])
             or forall_in(result[0], lambda r: wf_ty(r)))
+    ensures(implies(not card1(result[0]), leafcite(result[1])))
     ensures(forall_in(result[0], lambda r: shape_ok(node, r)))
     ensures(result[0] == rec(node, expected_type))
 
@@ -59,6 +62,7 @@ def _(self, node, expected_type):
     ensures(forall_in(result[0], lambda r: concrete_ok(r)))
     ensures(cardmany(result[0])
             or forall_in(result[0], lambda r: wf_ty(r)))
+    ensures(implies(not card1(result[0]), leafcite(result[1])))
     ensures(forall_in(result[0], lambda r: shape_ok(node, r)))
     sort('causes', 'Seq[RErr]')
     sort('recognized_types', 'Set[Ty]')
@@ -69,6 +73,7 @@ def _(self, node, expected_type):
                   node, ty_members(expected_type), _i)
               and forall_in(recognized_types, lambda r: shape_ok(node, r))
               and forall_in(recognized_types, lambda r: concrete_ok(r))
+              and leafcite_all(causes, len(causes))
               and (cardmany(recognized_types)
                    or forall_in(recognized_types, lambda r: wf_ty(r))))
 
@@ -77,9 +82,11 @@ def _(self, node, expected_type):
 def _(self, node, expected_type):
     properties('C02', 'C01', 'C13')
     requires(ty_is_list(expected_type) and wf_ty(expected_type))
+    unfold(2)
     result_sort('RecResult')
     ensures(cardmany(result[0])
             or forall_in(result[0], lambda r: wf_ty(r)))
+    ensures(implies(not card1(result[0]), leafcite(result[1])))
     ensures(forall_in(result[0], lambda r: shape_ok(node, r)))
     ensures(result[0] == rec_list(node, expected_type))
     invariant(0, lambda _i: _i <= len(node.items) and first_bad(
@@ -90,9 +97,11 @@ def _(self, node, expected_type):
 def _(self, node, expected_type):
     properties('C02', 'C01', 'C13')
     requires(ty_is_dict(expected_type) and wf_ty(expected_type))
+    unfold(2)
     result_sort('RecResult')
     ensures(cardmany(result[0])
             or forall_in(result[0], lambda r: wf_ty(r)))
+    ensures(implies(not card1(result[0]), leafcite(result[1])))
     ensures(forall_in(result[0], lambda r: shape_ok(node, r)))
     ensures(result[0] == rec_dict(node, expected_type))
     invariant(0, lambda _i: _i <= len(node.pairs) and first_bad_pair(
@@ -104,9 +113,11 @@ def _(self, node, expected_type):
     properties('C02', 'C03', 'C10', 'C08')
     requires(reg_has(expected_type) and wf_ty(expected_type))
     requires(not is_scalar_type(expected_type))
+    unfold(2)
     result_sort('RecResult')
     ensures(cardmany(result[0])
             or forall_in(result[0], lambda r: wf_ty(r)))
+    ensures(implies(not card1(result[0]), leafcite(result[1])))
     ensures(forall_in(result[0], lambda r: shape_ok(node, r)))
     ensures(result[0] == (tyset_of(expected_type)
                           if matches1(node, expected_type)
@@ -126,6 +137,7 @@ def _(self, node, expected_type, top):
     ensures(forall_in(result[0], lambda r: concrete_ok(r)))
     ensures(cardmany(result[0])
             or forall_in(result[0], lambda r: wf_ty(r)))
+    ensures(implies(not card1(result[0]), leafcite(result[1])))
     ensures(forall_in(result[0], lambda r: shape_ok(node, r)))
     sort('causes', 'Seq[RErr]')
     sort('recognized_subclasses', 'Set[Ty]')
@@ -137,5 +149,6 @@ def _(self, node, expected_type, top):
                             lambda r: shape_ok(node, r))
               and forall_in(recognized_subclasses,
                             lambda r: concrete_ok(r))
+              and leafcite_all(causes, len(causes))
               and (cardmany(recognized_subclasses)
                    or forall_in(recognized_subclasses, lambda r: wf_ty(r))))
